@@ -11,6 +11,10 @@
 //!       independent readers (c07_subset/{ind,glyph}.rs): glyph count, per new glyph the outline
 //!       flattened through the components (leaf + placement path), advance, lsb, the record's own
 //!       component fields and instructions.
+//!   c07_subset replay-cff <cases.ndjson> <mismatches.ndjson>
+//!       every CASE of MC_SubsetCff (name-keyed CFF: glyph names in and out of ISOAdobe order, accented glyphs = the seac
+//!       form of endchar, every request list; the representation of the source rotates: hdrSize, offSize, Top DICT order,
+//!       charset / Encoding forms, block order, Private DICT variants): see c07_subset/cffcase.rs.
 //!   c07_subset record <seed> <quick|thorough> <trace.ndjson>
 //!       repository fonts (glyf, CFF name-keyed / CID-keyed / with subroutines, CFF2; fonts and composites
 //!       selected by what their component records carry) and the synthesized CFF-family fonts of
@@ -69,6 +73,10 @@ mod glyph;
 #[allow(dead_code)]
 #[path = "c07_subset/cffw.rs"]
 mod cffw;
+#[path = "c07_subset/cffcase.rs"]
+mod cffcase;
+#[path = "c07_subset/cffrep.rs"]
+mod cffrep;
 #[path = "c07_subset/ind.rs"]
 mod ind;
 #[path = "c07_subset/rep.rs"]
@@ -308,6 +316,10 @@ struct IndSrc {
     /// synthesized CFF-family fonts: the glyphs whose charstring operands sit on the number-encoding
     /// boundaries: glyph id -> (family, the key values among its integer operands, number of 16.16 operands)
     bounds: BTreeMap<u16, (&'static str, Vec<i32>, usize)>,
+    /// synthesized name-keyed CFF fonts: accented glyphs (seac form of endchar): glyph id -> (base glyph, accent glyph)
+    seac: BTreeMap<u16, (u16, u16)>,
+    /// the source's Top DICT has no charset operator (ISOAdobe by default)
+    no_charset_op: bool,
 }
 
 impl IndSrc {
@@ -316,7 +328,7 @@ impl IndSrc {
         let nhm = t.num_h_metrics().ok_or("no hhea")?;
         let (adv, lsb) = t.h_metrics()?;
         let glyphs = if t.has("glyf") { t.glyphs()? } else { vec![] };
-        Ok(IndSrc { n, nhm, adv, lsb, glyphs, bounds: BTreeMap::new() })
+        Ok(IndSrc { n, nhm, adv, lsb, glyphs, bounds: BTreeMap::new(), seac: BTreeMap::new(), no_charset_op: false })
     }
     fn comps(&self, g: u16) -> Vec<u16> {
         self.glyphs.get(g as usize).map(ind::comp_gids).unwrap_or_default()
@@ -503,10 +515,37 @@ fn subset_events(
             }
         }
         let (isrc, iout) = if is_glyf { (irec(src.glyphs.get(o as usize)), irec(out_glyphs.get(n as usize))) } else { (no_irec(), no_irec()) };
+        // an accented glyph (seac): 1 = its base and accent are among the requested glyphs, 2 = one of them is not
+        // (the CFF subsetter pulls nothing in: Dev_SeacComponentsNotPulledIn); decided from the request alone
+        let seac = match src.seac.get(&o) {
+            None => 0,
+            Some((b, a)) => {
+                let closed = ids.contains(b) && ids.contains(a);
+                rec.bump(if closed { "seac:accented-glyph-retained-with-its-components" } else { "seac:accented-glyph-retained-without-a-component" }, 1);
+                if closed && ids.iter().position(|x| x == &o) < ids.iter().position(|x| x == b) {
+                    rec.bump("seac:accented-glyph-in-front-of-its-base", 1);
+                }
+                if closed { 1 } else { 2 }
+            }
+        };
+        if src.seac.values().any(|(b, a)| *b == o || *a == o) {
+            rec.bump("seac:component-glyph-retained", 1);
+        }
+        // what a report about this glyph is filed under (part of the key of a finding; from the inputs alone)
+        let mut ctx: Vec<&str> = Vec::new();
+        if seac != 0 {
+            ctx.push("accented");
+            if src.no_charset_op {
+                ctx.push("no-charset-operator");
+            }
+            if kind == "cff" && ids.len() > 255 && (api == "subset" || api.ends_with(":cid")) {
+                ctx.push("to-cid");
+            }
+        }
         rec.ev(
             case,
             "Glyph",
-            json!({"kind": kind, "new": n, "old": o, "metrics": metrics, "ind": is_glyf}),
+            json!({"kind": kind, "new": n, "old": o, "metrics": metrics, "ind": is_glyf, "seac": seac, "ctx": ctx.join(",")}),
             json!({"src": vs[k], "out": vo[k], "adv": adv, "lsb": lsb, "isrc": isrc, "iout": iout}),
         );
         rec.bump("glyph_events", 1);
@@ -783,6 +822,8 @@ struct Source {
     plans: Vec<sizes::Plan>,
     /// representation facts of a synthesized source, tallied when it is run
     rep_facts: Vec<String>,
+    /// accented glyphs of a synthesized name-keyed CFF
+    seac: Vec<(u16, u16, u16)>,
 }
 
 fn kind_of(t: &Tables) -> (String, Option<ind::CffFacts>) {
@@ -819,7 +860,7 @@ fn sources() -> Vec<Source> {
                 if kind == "none" || !["maxp", "hhea", "hmtx", "head"].iter().all(|x| t.has(x)) {
                     continue;
                 }
-                out.push(Source { label: format!("{}#{}", rel(&path), m), file: data.clone(), member: m, tables: t, kind, facts, bounds: vec![], plans: vec![], rep_facts: vec![] });
+                out.push(Source { label: format!("{}#{}", rel(&path), m), file: data.clone(), member: m, tables: t, kind, facts, bounds: vec![], plans: vec![], rep_facts: vec![], seac: vec![] });
             }
         }
     }
@@ -976,7 +1017,7 @@ fn run_source<P: FontTableProvider>(
                 }
             };
             rec.bump(&format!("calls:{}:{}", container, kind), 1);
-            if pat.starts_with("size:") || pat.starts_with("ladder:") || pat.starts_with("count:") {
+            if pat.starts_with("size:") || pat.starts_with("ladder:") || pat.starts_with("count:") || pat.starts_with("seac:") || pat.starts_with("rep:") {
                 // a list chosen for what the subsetter will have to write (decided from the source alone)
                 rec.bump(&format!("{}|{}|{}", pat, kind, api.split(':').next().unwrap_or(api)), 1);
             }
@@ -1010,17 +1051,19 @@ fn record(seed: u64, tier: &str, out: &str) {
         .map(|f| {
             let (kind, facts) = kind_of(&f.tables);
             assert_eq!(kind, f.kind);
-            Source { label: format!("{}#0", f.label), file: f.file, member: 0, tables: f.tables, kind, facts, bounds: f.bounds, plans: vec![], rep_facts: vec![] }
+            Source { label: format!("{}#0", f.label), file: f.file, member: 0, tables: f.tables, kind, facts, bounds: f.bounds, plans: vec![], rep_facts: vec![], seac: vec![] }
         })
         .collect();
     all.splice(0..0, syn);
     // ... and the size-boundary fonts with their chosen lists
+    // ... and the representation variants of a CFF source, with accented (seac) glyphs
     let sized: Vec<Source> = sizes::fonts(!quick)
         .into_iter()
+        .chain(cffrep::fonts(!quick))
         .map(|z| {
             let (kind, facts) = kind_of(&z.syn.tables);
             assert_eq!(kind, z.syn.kind, "{}", z.syn.label);
-            Source { label: format!("{}#0", z.syn.label), file: z.syn.file, member: 0, tables: z.syn.tables, kind, facts, bounds: vec![], plans: z.plans, rep_facts: z.facts }
+            Source { label: format!("{}#0", z.syn.label), file: z.syn.file, member: 0, tables: z.syn.tables, kind, facts, bounds: vec![], plans: z.plans, rep_facts: z.facts, seac: z.syn.seac }
         })
         .collect();
     all.splice(0..0, sized);
@@ -1039,6 +1082,8 @@ fn record(seed: u64, tier: &str, out: &str) {
             continue;
         }
         src.bounds = s.bounds.iter().map(|b| (b.gid, (b.family, b.ints.clone(), b.fixed))).collect();
+        src.seac = s.seac.iter().map(|x| (x.0, (x.1, x.2))).collect();
+        src.no_charset_op = s.rep_facts.iter().any(|f| f == "source:cff:charset-isoadobe-by-omission");
         if !s.plans.is_empty() {
             for f in &s.rep_facts {
                 rec.bump(&format!("rep:{}", f), 1);
@@ -1258,7 +1303,7 @@ fn probe() {
 
 /// Reproduction aid: subset a synthesized font and print the converted charstrings.
 fn dump_syn(label: &str, ids: &[u16]) {
-    for f in syn::fonts().into_iter().chain(sizes::fonts(true).into_iter().map(|z| z.syn)) {
+    for f in syn::fonts().into_iter().chain(sizes::fonts(true).into_iter().map(|z| z.syn)).chain(cffrep::fonts(true).into_iter().map(|z| z.syn)) {
         if f.label != label {
             continue;
         }
@@ -1270,6 +1315,9 @@ fn dump_syn(label: &str, ids: &[u16]) {
                 let t = Tables::from_sfnt(&out, 0).expect("sfnt");
                 let cff = t.get("CFF ").expect("CFF table in the output");
                 println!("output facts: {:?}", ind::cff_facts(cff));
+                if cff.len() <= 600 {
+                    println!("output CFF table: {}", vh::util::hex(cff));
+                }
                 for (n, _) in ids.iter().enumerate() {
                     println!("charstring {}: {:?}", n, ind::cff_charstring(cff, n).map(|b| vh::util::hex(&b)));
                 }
@@ -1287,10 +1335,12 @@ fn main() {
     let args: Vec<String> = std::env::args().collect();
     match args.get(1).map(|s| s.as_str()) {
         Some("replay") => replay(&args[2], &args[3], &args[4], args[5].parse().expect("every")),
+        Some("replay-cff") => cffcase::replay_cff(&args[2], &args[3]),
         Some("record") => record(args[2].parse().expect("seed"), &args[3], &args[4]),
         Some("probe") => probe(),
         Some("sizes") => {
-            for z in sizes::fonts(args.get(2).map(|t| t == "thorough").unwrap_or(false)) {
+            let th = args.get(2).map(|t| t == "thorough").unwrap_or(false);
+            for z in sizes::fonts(th).into_iter().chain(cffrep::fonts(th)) {
                 for p in &z.plans {
                     println!("{:40} {:50} {:3} ids {:?} {:?}", z.syn.label, p.name, p.ids.len(), p.apis, z.facts);
                 }
